@@ -92,7 +92,7 @@ def run(ctx, rep, tier):
         rep.check(need in reset_attrs, "C20.a", "ProgramData._reset_flags", f"resets {need}", f"_reset_flags no longer re-creates {need}")
     # metaclass cache
     ii = ast.unparse(model.func("IndexableInstance.__getitem__"))
-    rep.check("cls._ii_cache[obj] = cls(obj)" in ii, "C20.a", "IndexableInstance._ii_cache", "keyed by flag; values read the current flag map at call time", "dprint cache changed")
+    rep.check(model.has("IndexableInstance.__getitem__", "cls._ii_cache[obj] = cls(obj)"), "C20.a", "IndexableInstance._ii_cache", "keyed by flag; values read the current flag map at call time", "dprint cache changed")
 
     # ------------------------------------------------------------------ C20.b hash order
     rep.rule("C20.b", "order-revealing consumption of set-typed values only feeds numbering sinks or the loop element itself; picks and invariant-receiver sinks are triaged")
@@ -176,7 +176,7 @@ def run(ctx, rep, tier):
         raise AnalysisError("C20.b2: multi-kind lookups not found")
     # RegexAlternation is an unordered set of alternatives (language is order independent)
     ra = ast.unparse(model.func("RegexAlternation.__init__"))
-    rep.check("self.sub_matches = set(sub_matches)" in ra, "C20.b", "RegexAlternation.__init__", "alternatives form a set (union is order independent)", "RegexAlternation storage changed: re-triage")
+    rep.check(model.has("RegexAlternation.__init__", "self.sub_matches = set(sub_matches)"), "C20.b", "RegexAlternation.__init__", "alternatives form a set (union is order independent)", "RegexAlternation storage changed: re-triage")
 
     # ------------------------------------------------------------------ C20.c ambient inputs
     rep.rule("C20.c", "no ambient inputs: no time / random / environment; id() only feeds the debug store and a label name used on both sides")
@@ -200,7 +200,7 @@ def run(ctx, rep, tier):
     rep.check(sorted(set(users)) == ["CodegenCtx._generate_action_implementation", "CodegenCtx._generate_transition_body"], "C20.c", "CodegenCtx._transition_skip_action_label",
               "address-derived label name is produced by one helper for goto and label", f"label helper used by {sorted(set(users))}")
     ta = ast.unparse(model.func("CodegenCtx._generate_transition_body"))
-    rep.check("// action {action!r} " in ta, "C20.c", "CodegenCtx._generate_transition_body", "repr() of actions appears only in a C comment", "repr() placement changed")
+    rep.check(model.has("CodegenCtx._generate_transition_body", "// action {action!r} "), "C20.c", "CodegenCtx._generate_transition_body", "repr() of actions appears only in a C comment", "repr() placement changed")
 
     # ------------------------------------------------------------------ C20.d debug-tag store
     rep.rule("C20.d", "ProgramData.lookup results only guard imbue calls, render diagnostics, or decide an (ignorable) skip label")
@@ -230,7 +230,7 @@ def run(ctx, rep, tier):
     if n_lk < 4:
         raise AnalysisError("C20.d: lookup sites not found")
     er = ast.unparse(model.func("ProgramData._ensure_refmapped"))
-    rep.check("if cls._refmap[id(obj)]() is not obj:" in er and "cls._collection[id(obj)] = {}" in er, "C20.d", "ProgramData._ensure_refmapped",
+    rep.check(model.has("ProgramData._ensure_refmapped", "if cls._refmap[id(obj)]() is not obj:") and model.has("ProgramData._ensure_refmapped", "cls._collection[id(obj)] = {}"), "C20.d", "ProgramData._ensure_refmapped",
               "a recycled id() drops the previous object's tags on imbue", "stale-tag protection changed")
 
     # ------------------------------------------------------------------ C20.e mutable defaults
